@@ -260,7 +260,7 @@ STREE_ASSUME = ['TLC; SortedSet/Scapegoat/BigNat modules as transcription of the
                 'a clone inherits P (largest Len) from its original (DESIGN.md section 6)']
 PROPS['C01'] = dict(mc=_scapegoat_mc(None), trace=dict(module='SortedSetTrace', cfg='SortedSetTrace.cfg'),
                     assumptions=STREE_ASSUME)
-PROPS['C02'] = dict(mc=_scapegoat_mc(None), trace=dict(module='BalanceTrace', cfg='BalanceTrace.cfg', stack='256m'),
+PROPS['C02'] = dict(mc=_scapegoat_mc(None) + [dict(module='BigNatMC', cfg=('BigNatMC_q.cfg', 'BigNatMC_t.cfg'), workers=1)], trace=dict(module='BalanceTrace', cfg='BalanceTrace.cfg', stack='256m'),
                     assumptions=STREE_ASSUME)
 
 # --------------------------------------------------------------------------
